@@ -47,6 +47,7 @@ const (
 	mAlias              // shares memory with that value but is not it (sub-slice, append result, clip, unknown callee)
 	mCopy               // fresh container holding copies of its elements (Clone); elements are the receiver's
 	mRef                // fresh memory computed from / possibly referring to that value (read-only callee)
+	mIter               // an iterator / view over that value (maps.All, slices.Values, …): yields its elements, owns no memory
 )
 
 type vorigin struct {
@@ -155,8 +156,8 @@ func (a *aval) join(b *aval) bool {
 }
 
 func extMode(m uint8) uint8 {
-	if m == mCopy {
-		return mSame // an element of a cloned container is the receiver's element
+	if m == mCopy || m == mIter {
+		return mSame // an element of a cloned container / yielded by an iterator is the receiver's element
 	}
 
 	return m
@@ -721,7 +722,7 @@ func (fr *vframe) call(c *ssa.CallCommon, res ssa.Value, pos token.Pos) *aval {
 				n = name
 			}
 
-			r.join(fr.external(n, args, argVals, pos))
+			r.join(fr.external(n, args, argVals, pos, res))
 			analysed = true
 
 			continue
@@ -737,7 +738,7 @@ func (fr *vframe) call(c *ssa.CallCommon, res ssa.Value, pos token.Pos) *aval {
 	}
 
 	if !analysed {
-		r.join(fr.external(name, args, argVals, pos))
+		r.join(fr.external(name, args, argVals, pos, res))
 	}
 
 	return r
@@ -811,7 +812,179 @@ func (fr *vframe) builtin(name string, args []*aval, res ssa.Value, pos token.Po
 }
 
 // external: a callee without analysed body.
-func (fr *vframe) external(name string, args []*aval, argVals []ssa.Value, pos token.Pos) *aval {
+// stdSources: for the in-place functions of std slices / maps, the arguments whose ELEMENTS are copied into the first
+// argument (the destination).  The copy is element-wise and shallow, exactly as in maps.Clone / slices.Clone: the
+// destination container is not the source container; what the elements refer to is shared.
+var stdSources = map[string][]int{
+	"maps.Copy":        {1},
+	"maps.Insert":      {1},
+	"slices.Insert":    {2},
+	"slices.Replace":   {3},
+	"slices.AppendSeq": {1},
+}
+
+// stdMayRealloc: in-place functions whose result may be a NEW backing array holding the same elements
+var stdMayRealloc = map[string]bool{
+	"slices.Insert": true, "slices.Replace": true, "slices.AppendSeq": true, "slices.Grow": true, "slices.Clip": true,
+	"slices.Delete": true, "slices.DeleteFunc": true, "slices.Compact": true, "slices.CompactFunc": true,
+}
+
+// stdCall: the generic functions of std slices / maps / iter by their documented contract.
+//
+//	fresh    (Clone, Collect, Sorted*, Concat, Repeat, maps.Clone/Collect): a NEW container (abstract object of this call
+//	         site) holding the elements of the arguments
+//	writer   (maps.Copy/Insert, slices.Insert/Replace/AppendSeq/Sort/…): the first argument is worked on in place — a
+//	         receiver write if it is receiver memory; if it is a local container, it receives the ELEMENTS of the source
+//	         arguments (stdSources) and stays a local container
+//	pure     iterators and views: yield the elements of their argument (mode iter)
+//
+// In all three cases the container level is decided here and the ELEMENTS keep their identity: an element that is a
+// reference is shared with the receiver at that depth, exactly as after maps.Clone.
+func (fr *vframe) stdCall(name string, g stdGen, args []*aval, argVals []ssa.Value, pos token.Pos, site ssa.Value) *aval {
+	base := name
+	if i := strings.Index(base, "["); i >= 0 {
+		base = base[:i]
+	}
+
+	r := newAval()
+	isFn := func(i int) bool {
+		_, ok := argVals[i].Type().Underlying().(*types.Signature)
+
+		return ok && !isIterSig(argVals[i].Type())
+	}
+	siteObj := func(tag string) *vobj {
+		if site == nil {
+			return nil
+		}
+
+		return fr.vi.obj(site, tag, site.Type())
+	}
+	fill := func(o *vobj, el *aval) {
+		if o == nil || el.empty() {
+			return
+		}
+
+		e2 := newAval()
+		e2.join(el)
+		e2.fresh = false
+
+		if o.content.at("[]").join(e2) {
+			fr.vi.ver++
+		}
+	}
+
+	switch {
+	case g.fresh:
+		o := siteObj("std")
+		for i, a := range args {
+			if isFn(i) {
+				continue
+			}
+
+			el := fr.elemsOf(a)
+			if base == "slices.Concat" {
+				el = fr.elemsOf(el) // the argument is the variadic slice OF slices: the result holds their elements
+			}
+
+			fill(o, el)
+		}
+
+		if o != nil {
+			r.join(&aval{locs: map[vloc]bool{{o, ""}: true}})
+		} else {
+			r.fresh = true
+		}
+	case g.writer:
+		if len(args) == 0 {
+			return freshAval()
+		}
+
+		for o := range args[0].orig {
+			fr.vi.write("InPlace", vorigin{o.root, o.path, false, o.mode}, fr.fn, pos, name+" works on its first argument in place")
+		}
+
+		src := newAval()
+		for _, i := range stdSources[base] {
+			if i < len(args) {
+				src.join(fr.elemsOf(args[i]))
+			}
+		}
+
+		for l := range args[0].locs {
+			if !src.empty() {
+				e2 := newAval()
+				e2.join(src)
+				e2.fresh = false
+
+				if l.obj.content.at(l.path + "[]").join(e2) {
+					fr.vi.ver++
+				}
+			}
+		}
+
+		r.join(withMode(args[0], mAlias))
+		r.join(&aval{locs: args[0].locs})
+
+		if stdMayRealloc[base] {
+			o := siteObj("std")
+			fill(o, fr.elemsOf(args[0]))
+			fill(o, src)
+
+			if o != nil {
+				r.join(&aval{locs: map[vloc]bool{{o, ""}: true}})
+			}
+		}
+	default:
+		// iterators, views, scans
+		r.fresh = true
+
+		for i, a := range args {
+			if isFn(i) {
+				continue
+			}
+
+			for o := range a.orig {
+				m := uint8(mIter)
+				if o.mode == mRef || o.mode == mCopy {
+					m = o.mode
+				}
+
+				r.join(&aval{orig: map[vorigin]bool{{o.root, o.path, o.addr, m}: true}})
+			}
+
+			r.join(&aval{locs: a.locs})
+		}
+	}
+
+	// callbacks (…Func) are called with elements of the arguments
+	el := freshAval()
+	for i, a := range args {
+		if !isFn(i) {
+			el.join(fr.elemsOf(a))
+		}
+	}
+
+	for _, a := range args {
+		for cl := range a.fns {
+			if cl.fn.Blocks != nil && inModule(cl.fn) {
+				ps := make([]*aval, len(cl.fn.Params))
+				for i := range ps {
+					ps[i] = el
+				}
+
+				fr.vi.eval(cl.fn, ps, cl.bind, fr.d+1)
+			}
+		}
+	}
+
+	return r
+}
+
+func (fr *vframe) external(name string, args []*aval, argVals []ssa.Value, pos token.Pos, site ssa.Value) *aval {
+	if g, isStd := stdGeneric(name); isStd {
+		return fr.stdCall(name, g, args, argVals, pos, site)
+	}
+
 	all := map[vorigin]bool{}
 	per := make([]map[vorigin]bool, len(args))
 
@@ -824,31 +997,18 @@ func (fr *vframe) external(name string, args []*aval, argVals []ssa.Value, pos t
 		}
 	}
 
-	g, isStd := stdGeneric(name)
 	r := freshAval()
 	resMode := mRef
 
 	switch {
-	case isStd && g.fresh, !isStd && isFresh(name):
+	case isFresh(name):
 		resMode = mCopy
-	case isStd && g.writer:
-		resMode = mAlias
-
-		if len(args) > 0 {
-			for o := range args[0].orig {
-				fr.vi.write("InPlace", vorigin{o.root, o.path, false, o.mode}, fr.fn, pos, name+" works on its first argument in place")
-			}
-
-			r.join(&aval{locs: args[0].locs})
-		}
-	case isStd:
-		resMode = mAlias // iterators and views over the argument
 	default:
 		for i := range args {
 			recv := false
 
 			for o := range per[i] {
-				if o.root == 0 && (o.mode == mSame || o.mode == mAlias) {
+				if o.root == 0 && (o.mode == mSame || o.mode == mAlias || o.mode == mIter) {
 					recv = true
 				}
 			}
@@ -1099,7 +1259,7 @@ func showAval(a *aval) string {
 			s = "&" + s
 		}
 
-		s += []string{"", "~alias", "~copy", "~ref"}[o.mode]
+		s += []string{"", "~alias", "~copy", "~ref", "~iter"}[o.mode]
 		ks = append(ks, s)
 	}
 
@@ -1208,6 +1368,18 @@ type VSrc struct {
 	P    int    `json:"p"`
 	From string `json:"from,omitempty"` // the receiver location, as found
 	How  string `json:"how,omitempty"`
+	// Depth: how far below the receiver's field p the shared / consulted memory sits: 0 = the field's own value,
+	// 1 = its elements / pointee (what maps.Clone, maps.Copy, copy(), append(fresh, src...) and an assignment loop share),
+	// 2 = elements of elements, …  Sharing is tolerated at EVERY depth under one condition, checked by variant_row_ok
+	// through vf_writers of p: no method has a write effect that can hit memory reachable from the receiver's field p
+	// (type reachability from the field's type, which includes its elements and everything they refer to).
+	Depth int `json:"depth"`
+}
+
+func pathDepth(leaf, from string) int {
+	rest := strings.TrimPrefix(from, leaf)
+
+	return strings.Count(rest, "[]") + strings.Count(rest, "^")
 }
 
 type VField struct {
@@ -1248,7 +1420,11 @@ func srcRank(k string) int {
 func (vi *vinterp) classify(fr *vframe, leaves []vleaf, k int, v *aval) []VSrc {
 	out := map[string]VSrc{}
 	add := func(s VSrc) {
-		if _, ok := out[s.key()]; !ok {
+		if s.P < len(leaves) && s.From != "" {
+			s.Depth = pathDepth(leaves[s.P].name, strings.TrimPrefix(s.From, "&"))
+		}
+
+		if old, ok := out[s.key()]; !ok || s.Depth < old.Depth {
 			out[s.key()] = s
 		}
 	}
@@ -1269,7 +1445,7 @@ func (vi *vinterp) classify(fr *vframe, leaves []vleaf, k int, v *aval) []VSrc {
 		switch {
 		case o.addr:
 			add(VSrc{Kind: "MixAlias", P: p, From: "&" + from, How: "a pointer into the receiver"})
-		case o.mode == mAlias:
+		case o.mode == mAlias || o.mode == mIter:
 			add(VSrc{Kind: "MixAlias", P: p, From: from, How: "may share memory with the receiver's " + from})
 		case o.mode == mCopy || o.mode == mRef:
 			add(VSrc{Kind: "MixFresh", P: p, From: from, How: "fresh memory computed from the receiver's " + from})
@@ -1298,15 +1474,26 @@ func (vi *vinterp) classify(fr *vframe, leaves []vleaf, k int, v *aval) []VSrc {
 		add(VSrc{Kind: "Fresh"})
 	}
 
-	inner := map[vorigin]bool{}
-	hasInner := false
-
-	if len(v.locs) > 0 || len(v.fns) > 0 || len(v.sub) > 0 {
-		hasInner = true
-		fr.rootOrigins(&aval{locs: v.locs, fns: v.fns, sub: v.sub}, inner, map[*vobj]bool{}, 0)
+	// containers, closures, struct values: each one separately — a fresh container is Fresh if nothing of the receiver
+	// is inside it, MixFresh if it holds the receiver's ELEMENTS (shared at their depth, like after maps.Clone), MixAlias
+	// if it holds memory that may overlap the receiver's own containers
+	var parts []*aval
+	for l := range v.locs {
+		parts = append(parts, &aval{locs: map[vloc]bool{l: true}})
 	}
 
-	if hasInner {
+	for c := range v.fns {
+		parts = append(parts, &aval{fns: map[*vclosure]bool{c: true}})
+	}
+
+	if len(v.sub) > 0 {
+		parts = append(parts, &aval{sub: v.sub})
+	}
+
+	for _, part := range parts {
+		inner := map[vorigin]bool{}
+		fr.rootOrigins(part, inner, map[*vobj]bool{}, 0)
+
 		any := false
 
 		for o := range inner {
@@ -1318,7 +1505,7 @@ func (vi *vinterp) classify(fr *vframe, leaves []vleaf, k int, v *aval) []VSrc {
 			p := leafIndex(leaves, o.path)
 			from := prettyPath(o.path)
 
-			if o.addr || o.mode == mAlias {
+			if o.addr || o.mode == mAlias || o.mode == mIter {
 				add(VSrc{Kind: "MixAlias", P: p, From: from, How: "fresh container holding memory that may be shared with the receiver's " + from})
 			} else {
 				add(VSrc{Kind: "MixFresh", P: p, From: from, How: "fresh container filled from the receiver's " + from})
@@ -1734,7 +1921,11 @@ func renderVariants(rows []VRow) string {
 	var sb strings.Builder
 
 	sb.WriteString("(* GENERATED by harness/tools/effects (variants.go) from the current source of /repo — do not edit.\n")
-	sb.WriteString("   Per mechanism type: how WithConfig builds every field of the instance it returns. *)\n")
+	sb.WriteString("   Per mechanism type: how WithConfig builds every field of the instance it returns.\n")
+	sb.WriteString("   Depth in the comments: how far below the receiver's field the shared / consulted memory sits (0 the field's own\n")
+	sb.WriteString("   value, 1 its elements — what maps.Clone, maps.Copy, copy, append(fresh, src...) or an assignment loop share).\n")
+	sb.WriteString("   Sharing is tolerated at every depth iff no method writes memory reachable from that receiver field: that is\n")
+	sb.WriteString("   [vf_writers = []] of field p, which [variant_row_ok] demands for every VRecvShared / VRecvCopy / VMixFresh p. *)\n")
 	sb.WriteString("From HV Require Import Base.Prelude C17.Model C17.VModel Gen.Effects.\nOpen Scope string_scope.\nOpen Scope list_scope.\n\n")
 	sb.WriteString("Definition generated_variants : list vrow := [\n")
 
@@ -1772,6 +1963,12 @@ func renderVariants(rows []VRow) string {
 			}
 
 			sb.WriteString("]")
+
+			for _, sr := range f.Srcs {
+				if sr.Kind == "MixFresh" || sr.Kind == "MixAlias" {
+					fmt.Fprintf(&sb, " (* %s %d: %s, depth %d *)", sr.Kind, sr.P, strings.ReplaceAll(sr.From, "*", ""), sr.Depth)
+				}
+			}
 		}
 
 		sb.WriteString("] [")
